@@ -1,8 +1,8 @@
 CHECKS = [
     entry("C23", "router", level="fault_enumeration",
           technique="property-based testing (rapid) with enumerated injected faults: generated request sequences against a live Router + real InMemCollector, response/sink consistency oracle with a deterministic queue-full stall and sentinel flush",
-          quick=dict(checks=700, budget_s=55),
-          thorough=dict(checks=1500, shards=16, budget_s=450),
+          quick=dict(checks=500, budget_s=60),
+          thorough=dict(checks=1200, shards=16, budget_s=450),
           level_text="Every ingestion endpoint (single event, batch, OTLP traces/logs over HTTP proto+JSON and gRPC) with enumerated faults (environment lookup 401/500/garbage/hang-up, missing key, truncated/garbled/empty/short-read bodies, bad gzip/zstd, wrong content type, non-array batch, invalid events, deterministic and burst queue-full) crossed with generated event mixes; one response per request, error => nothing forwarded or buffered, success => every valid event processed or individually reported, batch statuses consistent with what left the collector. Fault enumeration over the listed fault kinds; event mixes are explored, not exhausted.",
           level_note="Observation at the transmissions' enqueue calls behind the real collector (one worker); OTLP queue-full drops and span events/links are not judged; lateness of the sentinel flush makes a case inconclusive, never a violation."),
 ]
